@@ -81,7 +81,7 @@ class Report:
         for v in getattr(E, 'frame_violations', []):
             if v['name'] not in seen:
                 seen.add(v['name'])
-                self.obligations.append({'name': v['name'], 'kind': 'frame', 'status': 'refuted', 'backend': 'pyvc-exec', 'seconds': 0.0,
+                self.obligations.append({'name': v['name'], 'kind': v.get('kind', 'frame'), 'status': 'refuted', 'backend': 'pyvc-exec', 'seconds': 0.0,
                                          'note': v['what'], 'line': v['lineno']})
         return {'obligations': self.obligations, 'functions': self.functions, 'assumptions': self.assumptions,
                 'bounded': self.bounded, 'inlined': sorted(E.inlined), 'contract_calls': sorted(E.contract_calls),
